@@ -73,7 +73,7 @@ def parse_binary_expr(ordering, node):
         return parse_name(ordering, node)
 
     if isinstance(node, ast.Constant):
-        if node.value in [0, 1]:
+        if type(node.value) in (int, bool) and node.value in [0, 1]:
             return OBDD(BDDNode(node.value), ordering)
 
         raise SyntaxError('expected a binary expression, got number ' +
